@@ -58,6 +58,16 @@ unsafe impl GlobalAlloc for CountingAlloc {
 #[global_allocator]
 static GLOBAL: CountingAlloc = CountingAlloc;
 
+/// verdict over four live-heap readings taken after ever larger numbers of generations with no
+/// generator alive: never shrinking, at least 1 KiB more at the end than at the first reading (which
+/// is already thousands of generations past any warm-up), and growth in at least two of the three
+/// intervals (a single late one-off initialisation is not growth; a table that doubles may skip one
+/// interval). On the repaired tree the four readings are equal to the byte.
+fn grows_on(l: [isize; 4]) -> bool {
+    let steps = (l[1] > l[0]) as u8 + (l[2] > l[1]) as u8 + (l[3] > l[2]) as u8;
+    l[0] <= l[1] && l[1] <= l[2] && l[2] <= l[3] && l[3] - l[0] >= 1024 && steps >= 2
+}
+
 fn live() -> (isize, isize) {
     (LIVE_BYTES.with(|c| c.get()), LIVE_BLOCKS.with(|c| c.get()))
 }
@@ -135,6 +145,204 @@ pub fn c14(thorough: bool, seed: u64) -> CheckOutput {
     for p in 0..6u8 {
         let _ = run_case(&Config::default_for(p, Entropy::Seed(1)), None);
     }
+    // The three single-thread growth blocks run FIRST, while the process is pristine: a process-wide
+    // table filled by the parallel blocks below would otherwise already be large, and a table that
+    // doubles shows one step per doubling of what it holds.
+    let mut pre = Acc::new();
+    // the same question with values that are NEW every time (ranges incl. inverted ones, seeds,
+    // rates, buffer sizes, mutator lists): state keyed by caller-supplied values would saturate in
+    // the repeated cycle above but grows here. One thread alone (process-wide state would otherwise
+    // be charged to whichever thread happens to resize it); four stages of 500 / 2000 / 4000 / 8000
+    // novel configurations, every generator dropped; the live heap must not grow stage after stage
+    // (a bounded cache would stop growing before the last stage).
+    let novel_acc = par_run(
+        1,
+        Acc::new,
+        |_i, acc| {
+            let mut k = 0usize;
+            let mut inv = (1usize, 0usize); // next inverted pair (min, max) with max < min
+            let mut stage = |n: usize| {
+                // no generator is alive when the heap is read: the long-lived one lives for a stage
+                let mut reused = Config::default_for(3, Entropy::Seed(1)).build();
+                for _ in 0..n {
+                    k += 1;
+                    let (min, max) = if k % 2 == 0 {
+                        let p = inv;
+                        inv = if inv.1 + 1 < inv.0 { (inv.0, inv.1 + 1) } else { (inv.0 + 1, 0) };
+                        p
+                    } else {
+                        ((k / 2) % 120, 120 + (k / 2) / 120)
+                    };
+                    let cfg = Config {
+                        min,
+                        max,
+                        mutators: subset((k % 128) as u32),
+                        rate: (k % 20_011) as f64 / 20_011.0,
+                        bufsize: if k % 5 == 0 { Some(64 + k) } else { None },
+                        unsafe_mut: k % 7 == 0,
+                        ext: k % 3 == 0,
+                        buf: k % 4 == 0,
+                        order: (k % 5) as u8,
+                        ..Config::default_for((k % 6) as u8, Entropy::Seed((k as u64).wrapping_mul(0x9E37_79B9_7F4A_7C15)))
+                    };
+                    if k % 3 == 0 {
+                        // a long-lived generator reconfigured through its public fields, as the
+                        // Python wrapper's set_opcode_range does
+                        reused.min_opcodes = cfg.min;
+                        reused.max_opcodes = cfg.max;
+                        reused.seed = Some(k as u64);
+                        reused.mutation_rate = cfg.rate;
+                        let out = gen_once(&mut reused, &cfg.entropy);
+                        drop(out);
+                        reused.reset();
+                    } else {
+                        let mut g = cfg.build();
+                        let out = gen_once(&mut g, &cfg.entropy);
+                        drop(out);
+                        drop(g);
+                    }
+                }
+                drop(reused);
+            };
+            acc.evaluations += 1;
+            stage(500);
+            let l0 = live();
+            stage(2000);
+            let l1 = live();
+            stage(4000);
+            let l2 = live();
+            stage(8000);
+            let l3 = live();
+            acc.count("novel_value_generations", 14_500);
+            acc.count("novel_value_runs", 1);
+            if grows_on([l0.0, l1.0, l2.0, l3.0]) {
+                let msg = format!(
+                    "live heap of the generating thread keeps growing with the number of DISTINCT configurations seen (ranges incl. inverted ones, seeds, rates, buffer sizes) although every generator is dropped or reset: {} bytes after 500 configurations, {} after 2500, {} after 6500, {} after 14500",
+                    l0.0, l1.0, l2.0, l3.0
+                );
+                acc.violate(Violation {
+                    property: "C14".into(),
+                    signature: "C14:unbounded_growth:novel_values".into(),
+                    message: msg.clone(),
+                    replay: json!({"kind": "c14-growth", "property": "C14", "seed": seed, "live_bytes": [l0.0, l1.0, l2.0, l3.0], "message": msg}),
+                });
+            }
+        },
+        |a, b| a.merge(b),
+    );
+    pre.merge(novel_acc);
+    // generate() WITHOUT a seed (entropy from the operating system): the only entry point the
+    // other blocks never take, because its output cannot be compared with anything. Its memory
+    // can: 3 000 unseeded generations on one thread, every generator dropped, live heap read after
+    // 100 / 400 / 1 200 / 3 000 of them.
+    let unseeded_acc = par_run(
+        1,
+        Acc::new,
+        |_i, acc| {
+            let mut k = 0usize;
+            let mut stage = |n: usize| {
+                for _ in 0..n {
+                    k += 1;
+                    let cfg = Config {
+                        min: 5,
+                        max: 30 + k % 40,
+                        mutators: if k % 2 == 0 { ALL_MK.to_vec() } else { vec![] },
+                        unsafe_mut: k % 4 == 0,
+                        order: (k % 5) as u8,
+                        ..Config::default_for((k % 6) as u8, Entropy::Seed(0))
+                    };
+                    let mut g = cfg.build();
+                    g.seed = None;
+                    let out = g.generate();
+                    drop(out);
+                    if k % 3 == 0 {
+                        g.reset();
+                        let out = g.generate();
+                        drop(out);
+                    }
+                    drop(g);
+                }
+            };
+            acc.evaluations += 1;
+            stage(100);
+            let l0 = live();
+            stage(300);
+            let l1 = live();
+            stage(800);
+            let l2 = live();
+            stage(1800);
+            let l3 = live();
+            acc.count("unseeded_generations", 4000);
+            if grows_on([l0.0, l1.0, l2.0, l3.0]) {
+                let msg = format!(
+                    "live heap of the generating thread keeps growing with the number of UNSEEDED generate() calls although every generator is dropped: {} bytes after 100 generators, {} after 400, {} after 1200, {} after 3000",
+                    l0.0, l1.0, l2.0, l3.0
+                );
+                acc.violate(Violation {
+                    property: "C14".into(),
+                    signature: "C14:unbounded_growth:unseeded".into(),
+                    message: msg.clone(),
+                    replay: json!({"kind": "c14-growth", "property": "C14", "seed": seed, "live_bytes": [l0.0, l1.0, l2.0, l3.0], "message": msg}),
+                });
+            }
+        },
+        |a, b| a.merge(b),
+    );
+    pre.merge(unseeded_acc);
+    // sheer volume with the opt-in opcodes on: a process-wide table that is keyed by emitted values
+    // and reserves a large capacity up front shows nothing until the reservation is used up.
+    // 40 000 (thorough: 400 000) seeded default-range generations for protocols 2..5 with EXT and
+    // buffer opcodes enabled (about 300 000 distinct extension codes), one thread, every generator
+    // dropped, live heap read after 1/16, 1/4, 1/2 and all of them.
+    let n_vol: usize = if thorough { 400_000 } else { 40_000 };
+    let volume_acc = par_run(
+        1,
+        Acc::new,
+        |_i, acc| {
+            let mut k = 0u64;
+            let mut stage = |n: usize| {
+                for _ in 0..n {
+                    k += 1;
+                    let cfg = Config {
+                        ext: true,
+                        buf: true,
+                        ..Config::default_for(2 + (k % 4) as u8, Entropy::Seed(k.wrapping_mul(0xD6E8_FEB8_6659_FD93) ^ seed))
+                    };
+                    let mut g = cfg.build();
+                    let out = gen_once(&mut g, &cfg.entropy);
+                    drop(out);
+                    drop(g);
+                }
+            };
+            acc.evaluations += 1;
+            stage(n_vol / 16);
+            let l0 = live();
+            stage(n_vol / 4 - n_vol / 16);
+            let l1 = live();
+            stage(n_vol / 4);
+            let l2 = live();
+            stage(n_vol / 2);
+            let l3 = live();
+            acc.count("volume_generations_with_optin_opcodes", n_vol as u64);
+            for (j, l) in [l0, l1, l2, l3].iter().enumerate() {
+                acc.count(&format!("volume_live_bytes_at_checkpoint_{}", j), l.0.max(0) as u64);
+            }
+            if grows_on([l0.0, l1.0, l2.0, l3.0]) {
+                let msg = format!(
+                    "live heap of the generating thread keeps growing with the number of pickles generated with the opt-in opcodes enabled although every generator is dropped: {} bytes after {} generators, {} after {}, {} after {}, {} after {}",
+                    l0.0, n_vol / 16, l1.0, n_vol / 4, l2.0, n_vol / 2, l3.0, n_vol
+                );
+                acc.violate(Violation {
+                    property: "C14".into(),
+                    signature: "C14:unbounded_growth:volume".into(),
+                    message: msg.clone(),
+                    replay: json!({"kind": "c14-growth", "property": "C14", "seed": seed, "live_bytes": [l0.0, l1.0, l2.0, l3.0], "message": msg}),
+                });
+            }
+        },
+        |a, b| a.merge(b),
+    );
+    pre.merge(volume_acc);
     let mut acc = par_run(
         n,
         Acc::new,
@@ -199,6 +407,7 @@ pub fn c14(thorough: bool, seed: u64) -> CheckOutput {
         },
         |a, b| a.merge(b),
     );
+    acc.merge(pre);
     acc.merge(steer_acc);
     // recipe-steered block: typed opcodes and aliases stored back into their own object, incl.
     // aliases that travel through the memo
@@ -390,146 +599,6 @@ pub fn c14(thorough: bool, seed: u64) -> CheckOutput {
         |a, b| a.merge(b),
     );
     acc.merge(growth_acc);
-    // the same question with values that are NEW every time (ranges incl. inverted ones, seeds,
-    // rates, buffer sizes, mutator lists): state keyed by caller-supplied values would saturate in
-    // the repeated cycle above but grows here. One thread alone (process-wide state would otherwise
-    // be charged to whichever thread happens to resize it); four stages of 500 / 2000 / 4000 / 8000
-    // novel configurations, every generator dropped; the live heap must not grow stage after stage
-    // (a bounded cache would stop growing before the last stage).
-    let novel_acc = par_run(
-        1,
-        Acc::new,
-        |_i, acc| {
-            let mut k = 0usize;
-            let mut inv = (1usize, 0usize); // next inverted pair (min, max) with max < min
-            let mut stage = |n: usize| {
-                // no generator is alive when the heap is read: the long-lived one lives for a stage
-                let mut reused = Config::default_for(3, Entropy::Seed(1)).build();
-                for _ in 0..n {
-                    k += 1;
-                    let (min, max) = if k % 2 == 0 {
-                        let p = inv;
-                        inv = if inv.1 + 1 < inv.0 { (inv.0, inv.1 + 1) } else { (inv.0 + 1, 0) };
-                        p
-                    } else {
-                        ((k / 2) % 120, 120 + (k / 2) / 120)
-                    };
-                    let cfg = Config {
-                        min,
-                        max,
-                        mutators: subset((k % 128) as u32),
-                        rate: (k % 20_011) as f64 / 20_011.0,
-                        bufsize: if k % 5 == 0 { Some(64 + k) } else { None },
-                        unsafe_mut: k % 7 == 0,
-                        ext: k % 3 == 0,
-                        buf: k % 4 == 0,
-                        order: (k % 5) as u8,
-                        ..Config::default_for((k % 6) as u8, Entropy::Seed((k as u64).wrapping_mul(0x9E37_79B9_7F4A_7C15)))
-                    };
-                    if k % 3 == 0 {
-                        // a long-lived generator reconfigured through its public fields, as the
-                        // Python wrapper's set_opcode_range does
-                        reused.min_opcodes = cfg.min;
-                        reused.max_opcodes = cfg.max;
-                        reused.seed = Some(k as u64);
-                        reused.mutation_rate = cfg.rate;
-                        let out = gen_once(&mut reused, &cfg.entropy);
-                        drop(out);
-                        reused.reset();
-                    } else {
-                        let mut g = cfg.build();
-                        let out = gen_once(&mut g, &cfg.entropy);
-                        drop(out);
-                        drop(g);
-                    }
-                }
-                drop(reused);
-            };
-            acc.evaluations += 1;
-            stage(500);
-            let l0 = live();
-            stage(2000);
-            let l1 = live();
-            stage(4000);
-            let l2 = live();
-            stage(8000);
-            let l3 = live();
-            acc.count("novel_value_generations", 14_500);
-            acc.count("novel_value_runs", 1);
-            if l1.0 > l0.0 && l2.0 > l1.0 && l3.0 > l2.0 && l3.0 - l0.0 >= 1024 {
-                let msg = format!(
-                    "live heap of the generating thread keeps growing with the number of DISTINCT configurations seen (ranges incl. inverted ones, seeds, rates, buffer sizes) although every generator is dropped or reset: {} bytes after 500 configurations, {} after 2500, {} after 6500, {} after 14500",
-                    l0.0, l1.0, l2.0, l3.0
-                );
-                acc.violate(Violation {
-                    property: "C14".into(),
-                    signature: "C14:unbounded_growth:novel_values".into(),
-                    message: msg.clone(),
-                    replay: json!({"kind": "c14-growth", "property": "C14", "seed": seed, "live_bytes": [l0.0, l1.0, l2.0, l3.0], "message": msg}),
-                });
-            }
-        },
-        |a, b| a.merge(b),
-    );
-    acc.merge(novel_acc);
-    // generate() WITHOUT a seed (entropy from the operating system): the only entry point the
-    // other blocks never take, because its output cannot be compared with anything. Its memory
-    // can: 3 000 unseeded generations on one thread, every generator dropped, live heap read after
-    // 100 / 400 / 1 200 / 3 000 of them.
-    let unseeded_acc = par_run(
-        1,
-        Acc::new,
-        |_i, acc| {
-            let mut k = 0usize;
-            let mut stage = |n: usize| {
-                for _ in 0..n {
-                    k += 1;
-                    let cfg = Config {
-                        min: 5,
-                        max: 30 + k % 40,
-                        mutators: if k % 2 == 0 { ALL_MK.to_vec() } else { vec![] },
-                        unsafe_mut: k % 4 == 0,
-                        order: (k % 5) as u8,
-                        ..Config::default_for((k % 6) as u8, Entropy::Seed(0))
-                    };
-                    let mut g = cfg.build();
-                    g.seed = None;
-                    let out = g.generate();
-                    drop(out);
-                    if k % 3 == 0 {
-                        g.reset();
-                        let out = g.generate();
-                        drop(out);
-                    }
-                    drop(g);
-                }
-            };
-            acc.evaluations += 1;
-            stage(100);
-            let l0 = live();
-            stage(300);
-            let l1 = live();
-            stage(800);
-            let l2 = live();
-            stage(1800);
-            let l3 = live();
-            acc.count("unseeded_generations", 4000);
-            if l1.0 > l0.0 && l2.0 > l1.0 && l3.0 > l2.0 && l3.0 - l0.0 >= 1024 {
-                let msg = format!(
-                    "live heap of the generating thread keeps growing with the number of UNSEEDED generate() calls although every generator is dropped: {} bytes after 100 generators, {} after 400, {} after 1200, {} after 3000",
-                    l0.0, l1.0, l2.0, l3.0
-                );
-                acc.violate(Violation {
-                    property: "C14".into(),
-                    signature: "C14:unbounded_growth:unseeded".into(),
-                    message: msg.clone(),
-                    replay: json!({"kind": "c14-growth", "property": "C14", "seed": seed, "live_bytes": [l0.0, l1.0, l2.0, l3.0], "message": msg}),
-                });
-            }
-        },
-        |a, b| a.merge(b),
-    );
-    acc.merge(unseeded_acc);
     let cyc = acc.get("analysed_outputs_with_identity_cycle") + acc.get("steered_outputs_with_identity_cycle");
     if cyc < 20 {
         acc.inconclusive.push(format!("only {} analysed outputs contained an identity cycle (the leak-prone pattern)", cyc));
